@@ -122,12 +122,17 @@ P("C03", level_text="Theorems for every configuration, limit, filter and byte st
                        S.JsonAnySuite(cfg={"arduino": 1}, n=4000 if tier == "quick" else 100000, maxlen=2)] +
   ([S.JsonAnySuite(cfg=CFG_ALL, n=200000), S.JsonAnySuite(cfg=CFG_NOUNI, n=100000)] if tier == "thorough" else [S.JsonAnySuite(cfg=CFG_ALL, n=8000)]))
 
-P("C07", level_text="Theorems: MessagePack round trip for every raw-free document within limits (accepted, exact consumption, result = norm d with numerically equal numbers, second "
-  "serialization byte-identical); through JSON, every byte string and key and every 64-bit integer is read back exactly. Documents from three generators are pushed through the real "
-  "library both ways and across formats; the equalities are evaluated on the implementation's outputs and compared with the model.",
-  level_note="whole-document JSON round trip and the float tolerance through JSON are checked on the implementation (oracle); the whole-document JSON theorem is in progress",
+P("C07", module="AJ.Props.C07All", extra=[("AJ.Props.C07", ["C07"]), ("AJ.Props.C07Float", ["C07"])],
+  level_text="Theorems: MessagePack round trip for every raw-free document within limits (accepted, exact consumption, result = norm d with numerically equal numbers, second "
+  "serialization byte-identical); JSON: json_roundtrip_all (the deserializer model reads serializeJson's text back as readBack d: same structure, order, keys, strings, integers exact), and "
+  "C07.json_roundtrip_floats_close: every floating-point leaf comes back within the composed C12 bounds - float_through_json: a double x in [1e-300,1e300] comes back as y with "
+  "|y-x| <= 1e-9*max(1,|x|) + 1e-6*|x|, and within 1e-9*max(1,|x|) whenever the text has more than seven significant digits (the parser reads short texts in binary32: kernel-checked witness, "
+  "the double 0.1 prints as 0.1 and is read back as the float 0.1f); float32_through_json; integral_double_back / zero_back: floats with integral value below 1e7 and zeros come back as "
+  "integers of the same value. Documents from three generators are pushed through the real library both ways and across formats; the equalities are evaluated on the implementation's outputs "
+  "and compared with the model.",
+  level_note="cross-format conversion (JSON -> document -> MessagePack -> document) is evaluated on the implementation's outputs; known finding: raw control characters in serializeJson's text (C02)",
   suites=lambda tier: [S.RoundTripSuite(cfg=DEF)],
-  partial=["C07_json for whole documents; floats through JSON are covered by the oracle with the C12 tolerances"])
+  partial=["cross-format conversion as a theorem"])
 
 P("C08", level_text="Theorem: for every raw-free document within the 64-bit/32-bit limits, an independent decoder written from the MessagePack specification decodes "
   "serializeMsgPack's output to exactly one object denoting the document (integers by value and sign, strings byte-exact, floats bit-exact or the integer of the same value, narrowing of "
@@ -205,10 +210,15 @@ P("C15", level_text="Theorems for JSON (filtered and unfiltered) and MessagePack
   level_note="stack bytes are observed on the binary; 'as soon as' for nested objects is covered by the correspondence",
   suites=lambda tier: [S.DepthSuite(cfg=DEF)])
 
-P("C16", extra=[("AJ.Props.C01", ["C16"])], level_text="Theorems: deserializeMsgPack consumes exactly the bytes of one object and its result is independent of what follows; back-to-back objects are returned one after the "
-  "other. Streams of documents with arbitrary separators are read through a counting reader and std::istream with byte-wise and block-wise delivery; positions and documents are "
-  "compared with the model and with the generator's expectations.",
-  level_note="exact consumption for every JSON value kind is part of the C01 development; here it rests on the correspondence",
+P("C16", module="AJ.Props.C16All", extra=[("AJ.Props.C01", ["C16"]), ("AJ.Props.C16", ["C16"]), ("AJ.Props.C16Seq", ["C16"])],
+  level_text="Theorems: deserializeJson consumes the leading white space and exactly the bytes of the top-level value, plus one byte when it is a number and something follows "
+  "(number_consumes_at_most_one_more, run_doc, exact_consumption); deserializeMsgPack consumes exactly the bytes of one object; C16.json_sequence / json_sequence_gen: for any list of documents "
+  "of the dialect (any configuration and limit) written back to back, where only a number must be followed by a white-space byte, k successive calls return exactly the documents one after "
+  "the other, then EmptyInput if white space is left (json_sequence_leftover says which bytes are left); number_needs_separator: a number followed directly by another value is InvalidInput; "
+  "msgpack_sequence_n: n back-to-back objects in any legal encoding are returned one after the other, for every filter; result_independent_of_rest / msgpack_result_independent_of_rest: the "
+  "result of a call (any code) does not depend on bytes beyond those it consumed. Documents written back to back with arbitrary separators are read through a counting reader, std::istream, "
+  "a block-buffered std::istream and chunked delivery, and compared with the model and with the expected sequence.",
+  level_note="reader chunking is a property of the real readers (byte-wise, block-wise, std::istream with a refilling buffer), checked by the correspondence; the model reads through a one-byte latch",
   suites=lambda tier: [S.StreamSuite(cfg=DEF)],
   partial=["JSON exact consumption theorem"])
 
@@ -227,7 +237,7 @@ P("C18", level_text="Theorems for all values: != is the negation of ==, <= is < 
   level_note="known finding: == is asymmetric for objects with repeated keys (reachable through MessagePack)",
   suites=lambda tier: [S.CmpSuite(cfg=DEF)])
 
-P("C04", module="AJ.Props.C04All", extra=[("AJ.Props.C04", ["C04"]), ("AJ.Props.C04Hist", ["C04"]), ("AJ.Props.C04Rem", ["C04"]), ("AJ.Props.C04Copy", ["C04"])],
+P("C04", module="AJ.Props.C04All", extra=[("AJ.Props.C04", ["C04"]), ("AJ.Props.C04Hist", ["C04"]), ("AJ.Props.C04Rem", ["C04"]), ("AJ.Props.C04Copy", ["C04"]), ("AJ.Props.C14Hist", ["C04"])],
   level_text="Theorems about the slot-level document model (total definitions over pools, free list, next-linked chains with head/tail, extension slots, "
   "reference-counted strings) under the invariant WF = ghost layout WFG (chains acyclic, tail = last slot, slots used once, live in the pool) + string table StrOK (reference counts = number of "
   "referring slots): the abstraction to an ordered tree never runs out of fuel; array append refines list append and keeps WF; set of every scalar/string kind (incl. 64-bit extension slots, "
@@ -238,7 +248,10 @@ P("C04", module="AJ.Props.C04All", extra=[("AJ.Props.C04", ["C04"]), ("AJ.Props.
   "allocation fails; size/findKey agree with the tree; slot ids handed out are fresh, releases are local. C04.history_refines2 / history_trace2: every history over add-element / clear / store / "
   "remove-element / remove-member / member-lookup-or-insert (from any WF document, any geometry, any failure oracle) keeps WF and each step produces the value of the list-level machine. "
   "copyInto_refines / copyInto_same_doc / copyInto_frame / historyC_refines: a deep copy from another or the same document (overlap allowed: the source is read from a snapshot) yields, when it is "
-  "not flagged overflowed, exactly the source value (doubles re-normalised to float when exact; keys without repetition) in fresh or recycled slots, with WF and the frame property. The same model is compared after every operation with the real library on "
+  "not flagged overflowed, exactly the source value (doubles re-normalised to float when exact; keys without repetition) in fresh or recycled slots, with WF and the frame property. "
+  "history_simulates_tree(_of_flag): REFINEMENT TO THE PLAIN ORDERED TREE for whole histories - the abstract value after any history whose result is not flagged equals the run of an abstract "
+  "machine over paths into a tree (add, clear, store, remove element/member, get-or-add member) that knows nothing of slots, pools or string storage; mutation_changes_only_target: every "
+  "location whose path diverges from all targets keeps its path and value; readonly_changes_nothing: lookups of present members and removals of absent ones leave the store itself unchanged. The same model is compared after every operation with the real library on "
   "generated non-aliasing histories: every observation AND the allocator log, on several pool geometries; the library's observations are also checked against an independent plain "
   "ordered-tree machine.",
   level_note="document-level copy-assignment/swap/move (which also exchange allocators) rest on the correspondence; a source object with a repeated key (only reachable through MessagePack input) is copied with the "
@@ -253,8 +266,10 @@ P("C05", module="AJ.Props.C05All", extra=[("AJ.Props.C05", ["C05"]), ("AJ.Props.
   "live slot and keeps the pool invariant, clear() returns every block, and the allocator works again afterwards. At document level (C05.add_element_fail_clean, set_fail_clean, "
   "add_member_fail_clean): when adding an element, storing a value or adding a member fails for lack of memory, the document is flagged overflowed, stays well-formed (WF), denotes exactly "
   "the same tree as before (so no member exists without key or value and nothing outside the path changed) and, for member insertion, at most two slots stay allocated but unreachable; "
-  "copy_fail_safe / copy_flag_iff_incomplete: under ANY failure schedule a deep copy leaves a well-formed document whose value at the target is a partial copy (a sub-sequence of the elements / "
-  "members, each complete, partial or null, every member with its key), everything outside the target unchanged, and it is flagged overflowed exactly when the copy is incomplete. "
+  "copy_fail_safe / copy_flag_iff_incomplete / copy_into_flagged_document: under ANY failure schedule a deep copy leaves a well-formed document whose value at the target is a PREFIX copy "
+  "(arrays: a prefix of completely copied elements, the failed element's slot released; objects: a prefix of complete members and at most one last member with a partial value, every member "
+  "with its key), everything outside the target unchanged, flagged overflowed exactly when the copy is incomplete; into a document that is already flagged the copy stops after the first "
+  "element/member (the sticky flag makes every set report failure). "
   "API histories generated online against the model (so that only usable references are touched) are run under single, fail-from-k and multi-failure schedules on an instrumented allocator: "
   "every observation and allocator log is compared with the slot-level model, and the implementation is checked for crashes (ASan/UBSan), leaks at clear(), misuse of the allocator, "
   "unreported failures and collateral changes; deserialization is run under every single-failure position.",
@@ -280,9 +295,11 @@ P("C06", module="AJ.Props.C06All", extra=[("AJ.Props.C19", ["C06"]), ("AJ.Props.
                        S.HistSuite(cfg=G["nolonglong"], nh=40 if tier == "quick" else 2000)],
   partial=["deserialization memory bound as a theorem"])
 
-P("C19", module="AJ.Props.C19All", extra=[("AJ.Props.C19", ["C19"]), ("AJ.Props.C19Str", ["C19"])], level_text="Theorems for every geometry with poolCap >= 1 and initPools >= 1, every operation sequence and failure oracle: slot identifiers never wrap, "
+P("C19", module="AJ.Props.C19All", extra=[("AJ.Props.C19", ["C19"]), ("AJ.Props.C19Str", ["C19"]), ("AJ.Props.C19Geo", ["C19"])], level_text="Theorems for every geometry with poolCap >= 1 and initPools >= 1, every operation sequence and failure oracle: slot identifiers never wrap, "
   "never equal NULL_SLOT, never collide with a live slot; at most 2^(8*idBytes)-1 slots; at the limit allocation fails without touching the state; after a release or clear() allocation "
-  "works again. (The proof attempt exposed two defects of the pinned tree, both repaired: table growth past maxPools and a last pool that is too large.) The same histories are replayed "
+  "works again. (The proof attempt exposed two defects of the pinned tree, both repaired: table growth past maxPools and a last pool that is too large.) C19.geometry_independent(_below_limit): "
+  "two documents with ANY two geometries and the same abstract value, running the same abstract history while staying below the slot limit with a non-failing allocator, end with the same "
+  "abstract value (below_limit_succeeds: below the limit every allocation succeeds; needs poolCap >= 2 - with capacity 1 the model's maxPools is 0). The same histories are replayed "
   "under a matrix of geometries and compared with the model, including histories that cross the slot limit with 1-byte ids.",
   level_note="C19Str: a failing string copy is clean (string_copy_fails_cleanly, copied/raw_string_set_fails_cleanly), reference counts are bounded by the number of live slots < 2^(8*idBytes) "
   "(refcount_never_wraps(_history)), slot ids never wrap along histories; the STRING_LENGTH_SIZE limit itself is not in the slot-level model (model_has_no_string_length_limit) and is covered "
@@ -301,12 +318,14 @@ P("C20", level_text="Theorems: (1) the inventory of every object with static sto
   suites=lambda tier: [S.ThreadSuite(cfg=DEF)],
   partial=["races on the binary are observed, not proved"])
 
-P("C14", module="AJ.Props.C04", namespaces=["C14"], level_text="Theorem C14.kind_irrelevant: on the slot-level model, storing a string by address (linked) or by copy (owned, de-duplicated, "
-  "reference counted) yields the same abstract document, for every document state satisfying the invariant and every location; clearing one user of a shared string leaves the others "
-  "intact (C04.clearV_scalar with the reference-count argument). The same history is executed on the real library with five string source kinds (std::string, string_view, char*, "
-  "JsonString copied, JsonString linked; strings with NUL, bytes >= 0x80, numeric text) and every observation (tree, conversions, is<T>, as<const char*> termination) must be identical "
-  "across kinds and equal to the model's.",
-  level_note="Arduino String / flash strings are not in the quick tier; isLinked() is deliberately not observed",
+P("C14", module="AJ.Props.C14All", extra=[("AJ.Props.C04", ["C14"]), ("AJ.Props.C14Hist", ["C14"])],
+  level_text="Theorems: C14.kind_irrelevant - on the slot-level model, storing a string by address (linked) or by copy (owned, de-duplicated, reference-counted) yields the same abstract "
+  "document, for every well-formed state and location; C14.history_kind_irrelevant(_at): two whole histories that differ only in how their string values and keys are stored (same abstract "
+  "operation list; put_kind/member_kind: linked and copied map to the same abstract operation), from documents with the same abstract value and without allocation failure, end with the same "
+  "abstract value - de-duplication and reference counting are invisible (kernel-checked example: one string node with two references vs none, both {hi: hi}). The same history is executed "
+  "with five string source kinds for values AND keys (std::string, string_view and JsonString slices of longer buffers, char* in exactly-sized blocks, linked JsonString) and must give "
+  "identical observations incl. conversions and termination of every string handed out.",
+  level_note="numeric conversion of strings (as<T>() on a string) is compared across kinds on the implementation; the theorems are about documents, not about the adapters' overload resolution",
   suites=lambda tier: [S.StringKindSuite(cfg=DEF), S.HistSuite(cfg=G["default"], nh=30 if tier == "quick" else 1500)])
 
 for pid in list(PROPS):
